@@ -27,6 +27,7 @@ import (
 
 	"com.tuntun.rangers/node/src/common"
 	"com.tuntun.rangers/node/src/core"
+	"com.tuntun.rangers/node/src/middleware"
 	"com.tuntun.rangers/node/src/middleware/types"
 	"com.tuntun.rangers/node/src/storage/account"
 	"com.tuntun.rangers/node/src/vm"
@@ -92,9 +93,12 @@ var (
 		"CS": common.HexToAddress("0x00000000000000000000000000000000c0de0002"), // selfdestruct(self)
 		"CO": common.HexToAddress("0x00000000000000000000000000000000c0de0003"), // selfdestruct(B)
 		"CR": common.HexToAddress("0x00000000000000000000000000000000c0de0004"), // REVERT
+		"CC": common.HexToAddress("0x00000000000000000000000000000000c0de0005"), // selfdestruct(caller)
+		"N":  common.HexToAddress("0x000000000000000000000000000000000e0e0001"), // never touched before
 		"P2": common.HexToAddress("0x0000000000000000000000000000000000000002"), // precompile sha256
 	}
-	helperProg = map[string]string{"CP": "stop", "CS": "sdself", "CO": "sdother", "CR": "revert"}
+	helperProg = map[string]string{"CP": "stop", "CS": "sdself", "CO": "sdother", "CR": "revert", "CC": "sdcaller"}
+	helpers    = []string{"CP", "CS", "CO", "CR", "CC"}
 
 	genesisProposers = []string{
 		"0x7f88b4f2d36a83640ce5d782a0a20cc2b233de3df2d8a358bf0e7b29e9586a12",
@@ -139,6 +143,14 @@ func createAddress(a common.Address, nonce uint64) common.Address {
 	enc := append([]byte{0xc0 + byte(len(payload))}, payload...)
 	return common.BytesToAddress(keccak(enc)[12:])
 }
+
+// create2Address = keccak(0xff || addr || salt(=0) || keccak(init))[12:].
+func create2Address(a common.Address, init []byte) common.Address {
+	var salt [32]byte
+	return common.BytesToAddress(keccak([]byte{0xff}, a.Bytes(), salt[:], keccak(init))[12:])
+}
+
+var initLabels = []string{"plain", "revert", "invalid", "loop", "sdself", "sdother", "callB", "big", "big2"}
 
 func escrowAddr(height uint64) common.Address {
 	return common.BytesToAddress(common.Sha256([]byte("refund" + strconv.FormatUint(height, 10))))
@@ -245,6 +257,39 @@ func progCode(label string) []byte {
 		p.Op(vm.ADDRESS, vm.SELFDESTRUCT)
 	case "sdother":
 		p.PushN(20, addrs["B"].Bytes()).Op(vm.SELFDESTRUCT)
+	case "sdcaller":
+		p.Op(vm.CALLER, vm.SELFDESTRUCT)
+	case "sdnew":
+		p.PushN(20, addrs["N"].Bytes()).Op(vm.SELFDESTRUCT)
+	case "callcode": // callcode:<target>:<value mode>:<ending> (the target's code runs in C0's context)
+		p.Push(0).Push(0).Push(0).Push(0)
+		valueOf(p, f[2])
+		p.PushN(20, addrs[f[1]].Bytes()).Op(vm.GAS, vm.CALLCODE, vm.POP)
+		endOf(p, f[3])
+	case "delegate": // delegate:<target>:<ending>
+		p.Push(0).Push(0).Push(0).Push(0)
+		p.PushN(20, addrs[f[1]].Bytes()).Op(vm.GAS, vm.DELEGATECALL, vm.POP)
+		endOf(p, f[2])
+	case "twice": // twice:<target>:<value mode>:<ending>: the same value-carrying CALL two times
+		for i := 0; i < 2; i++ {
+			p.Push(0).Push(0).Push(0).Push(0)
+			valueOf(p, f[2])
+			p.PushN(20, addrs[f[1]].Bytes()).Op(vm.GAS, vm.CALL, vm.POP)
+		}
+		endOf(p, f[3])
+	case "create2": // create2:<init>:<value mode>:<ending>, salt 0
+		ic := initCode(f[1])
+		build := func(off int) *asm.Prog {
+			q := asm.New()
+			q.PushN(2, []byte{byte(len(ic) >> 8), byte(len(ic))}).PushN(2, []byte{byte(off >> 8), byte(off)}).Push(0).Op(vm.CODECOPY)
+			q.Push(0).PushN(2, []byte{byte(len(ic) >> 8), byte(len(ic))}).Push(0)
+			valueOf(q, f[2])
+			q.Op(vm.CREATE2, vm.POP)
+			endOf(q, f[3])
+			return q
+		}
+		q := build(build(0).Len())
+		return append(q.Bytes(), ic...)
 	case "call": // call:<target>:<value mode>:<ending>
 		p.Push(0).Push(0).Push(0).Push(0)
 		valueOf(p, f[2])
@@ -414,6 +459,7 @@ type world struct {
 	uniAddr map[string]common.Address
 	escrows []common.Address
 	miners  [][]byte
+	roots   []common.Hash // state roots committed (in memory) by this case
 }
 
 func (w *world) addU(label string, a common.Address) {
@@ -482,10 +528,13 @@ func newWorld(k kase) *world {
 	for n := uint64(0); n < 8; n++ {
 		w.addU(fmt.Sprintf("create(A,%d)", n), createAddress(addrs["A"], n))
 	}
-	for _, c := range []string{"C0", "CP", "CS", "CO", "CR"} {
+	for _, c := range append([]string{"C0"}, helpers...) {
 		for n := uint64(0); n < 4; n++ {
 			w.addU(fmt.Sprintf("create(%s,%d)", c, n), createAddress(addrs[c], n))
 		}
+	}
+	for _, ic := range initLabels {
+		w.addU("create2(C0,"+ic+")", create2Address(addrs["C0"], initCode(ic)))
 	}
 	w.addU("zero", common.Address{})
 	w.addU("token", tok)
@@ -494,7 +543,7 @@ func newWorld(k kase) *world {
 
 	nblocks := uint64(len(k.Blocks))
 	for h := uint64(baseHeight); h < baseHeight+nblocks; h++ {
-		w.escrows = append(w.escrows, escrowAddr(h), escrowAddr(h+refundAfter))
+		w.escrows = append(w.escrows, escrowAddr(h), escrowAddr(h+refundAfter), escrowAddr(h+2*refundAfter))
 	}
 	w.escrows = append(w.escrows, escrowAddr(0))
 	for _, e := range w.escrows {
@@ -512,7 +561,8 @@ func newWorld(k kase) *world {
 	db.SetBalance(addrs["A"], parseWei(k.SBal))
 	db.SetBalance(addrs["B"], parseWei(k.RBal))
 	db.SetBalance(addrs["D"], parseWei(k.RBal))
-	for c, pl := range helperProg {
+	for _, c := range helpers {
+		pl := helperProg[c]
 		db.SetCode(addrs[c], progCode(pl))
 		db.SetNonce(addrs[c], 1)
 		db.SetBalance(addrs[c], parseWei(k.CBal))
@@ -525,7 +575,7 @@ func newWorld(k kase) *world {
 	if k.XBal != "" {
 		db.SetBalance(createAddress(addrs["A"], 0), parseWei(k.XBal))
 	}
-	db.IntermediateRoot(true)
+	w.reopen()
 	return w
 }
 
@@ -581,97 +631,120 @@ func txLabel(s txSpec, prog string) string {
 	return s.Kind
 }
 
+// reopen commits the state and opens a fresh AccountDB object at the new root, exactly as the
+// chain does between two blocks (a block is always executed on an AccountDB opened at its
+// parent's state root).
+func (w *world) reopen() {
+	root, err := w.db.Commit(true)
+	if err != nil {
+		panic(err)
+	}
+	w.roots = append(w.roots, root)
+	w.db = node.StateAt(root)
+}
+
+// release drops the in-memory trie nodes the case committed (nothing is written to disk).
+func (w *world) release() {
+	tdb := middleware.AccountDBManagerInstance.GetTrieDB()
+	for i := len(w.roots) - 1; i >= 0; i-- {
+		tdb.Dereference(w.roots[i])
+	}
+}
+
+type blockPlan struct {
+	index  int // block index reported in findings
+	height uint64
+	specs  []txSpec
+}
+
+func plan(k kase) []blockPlan {
+	var bp []blockPlan
+	for bi, b := range k.Blocks {
+		bp = append(bp, blockPlan{bi, uint64(baseHeight + bi), b})
+	}
+	if k.Settle {
+		// every refund scheduled by block b falls due at height(b)+refundAfter: one empty block per due height
+		for bi := range k.Blocks {
+			bp = append(bp, blockPlan{len(k.Blocks) + bi, uint64(baseHeight+bi) + refundAfter, nil})
+		}
+	}
+	return bp
+}
+
 func runCase(k kase) (res result) {
 	w := newWorld(k)
+	defer w.release()
 	castor := common.FromHex(genesisProposers[0])
 	top := core.GetBlockChain().TopBlock()
 	pre := w.observe()
 	pos := 0
 	var nonceA uint64
 
-	nblocks := len(k.Blocks)
-	if k.Settle {
-		nblocks++
-	}
-	for bi := 0; bi < nblocks; bi++ {
-		height := uint64(baseHeight + bi)
-		var specs []txSpec
-		if bi < len(k.Blocks) {
-			specs = k.Blocks[bi]
-		} else {
-			// the settle block: every refund scheduled by the case's blocks falls due at or before it;
-			// execute one empty block per due height
-			specs = nil
-		}
-		heights := []uint64{height}
-		if bi >= len(k.Blocks) {
-			heights = heights[:0]
-			for b := 0; b < len(k.Blocks); b++ {
-				heights = append(heights, uint64(baseHeight+b)+refundAfter)
+	for _, b := range plan(k) {
+		var txs []*types.Transaction
+		for _, s := range b.specs {
+			txs = append(txs, buildTx(s, pos, nonceA))
+			pos++
+			if s.From == "" || s.From == "A" {
+				nonceA++
 			}
 		}
-		for _, h := range heights {
-			var txs []*types.Transaction
-			for _, s := range specs {
-				txs = append(txs, buildTx(s, pos, nonceA))
-				pos++
-				if s.From == "" || s.From == "A" {
-					nonceA++
-				}
+		hdr := &types.BlockHeader{Height: b.height, PreHash: top.Hash, CurTime: top.CurTime.Add(time.Duration(b.height) * time.Second),
+			Castor: castor, ProveValue: big.NewInt(0)}
+		blk := &types.Block{Header: hdr, Transactions: txs}
+		var receipts []*types.Receipt
+		var evicted []common.Hash
+		p, v, site := fw.Try(func() {
+			_, evicted, _, receipts = core.VerifExecuteBlock(w.db, blk, "fullverify")
+		})
+		if p {
+			res.panicked = fmt.Sprintf("%s: %v", site, v)
+			return
+		}
+		// outcomes and burn witnesses
+		burn := new(big.Int)
+		byHash := map[common.Hash]*types.Receipt{}
+		for _, r := range receipts {
+			byHash[r.TxHash] = r
+		}
+		ev := map[common.Hash]bool{}
+		for _, e := range evicted {
+			ev[e] = true
+		}
+		for i, tx := range txs {
+			lbl := b.specs[i].Kind
+			if b.specs[i].Eth {
+				lbl = "eth-" + lbl
 			}
-			hdr := &types.BlockHeader{Height: h, PreHash: top.Hash, CurTime: top.CurTime.Add(time.Duration(h) * time.Second),
-				Castor: castor, ProveValue: big.NewInt(0)}
-			blk := &types.Block{Header: hdr, Transactions: txs}
-			var receipts []*types.Receipt
-			var evicted []common.Hash
-			p, v, site := fw.Try(func() {
-				_, evicted, _, receipts = core.VerifExecuteBlock(w.db, blk, "fullverify")
-			})
-			if p {
-				res.panicked = fmt.Sprintf("%s: %v", site, v)
-				return
-			}
-			// outcomes and burn witnesses
-			burn := new(big.Int)
-			byHash := map[common.Hash]*types.Receipt{}
-			for _, r := range receipts {
-				byHash[r.TxHash] = r
-			}
-			ev := map[common.Hash]bool{}
-			for _, e := range evicted {
-				ev[e] = true
-			}
-			for i, tx := range txs {
-				lbl := txLabel(specs[i], k.Prog)
-				r := byHash[tx.Hash]
-				switch {
-				case r == nil && ev[tx.Hash]:
-					res.outcomes = append(res.outcomes, lbl+"|evicted")
-				case r == nil:
-					res.outcomes = append(res.outcomes, lbl+"|no-receipt")
-				case r.Status == types.ReceiptStatusSuccessful:
-					res.outcomes = append(res.outcomes, lbl+"|ok")
-					for _, l := range r.Logs {
-						if len(l.Topics) == 1 && l.Topics[0] == burnTag && len(l.Data) == 32 {
-							burn.Add(burn, new(big.Int).SetBytes(l.Data))
-						}
-					}
-				default:
-					res.outcomes = append(res.outcomes, lbl+"|fail|"+msgClass(r.Msg))
-				}
-			}
-			post := w.observe()
-			res.findings = append(res.findings, w.compare(bi, pre, post, burn)...)
-			if !res.moved {
-				for key := range w.uni {
-					if !bytes.Equal(pre.slots[key], post.slots[key]) {
-						res.moved = true
-						break
+			r := byHash[tx.Hash]
+			switch {
+			case r == nil && ev[tx.Hash]:
+				res.outcomes = append(res.outcomes, lbl+"|evicted")
+			case r == nil:
+				res.outcomes = append(res.outcomes, lbl+"|no-receipt")
+			case r.Status == types.ReceiptStatusSuccessful:
+				res.outcomes = append(res.outcomes, lbl+"|ok")
+				for _, l := range r.Logs {
+					if len(l.Topics) == 1 && l.Topics[0] == burnTag && len(l.Data) == 32 {
+						burn.Add(burn, new(big.Int).SetBytes(l.Data))
 					}
 				}
+			default:
+				res.outcomes = append(res.outcomes, lbl+"|fail|"+msgClass(r.Msg))
 			}
-			pre = post
 		}
+		w.reopen()
+		post := w.observe()
+		res.findings = append(res.findings, w.compare(b.index, pre, post, burn)...)
+		if !res.moved {
+			for key := range w.uni {
+				if !bytes.Equal(pre.slots[key], post.slots[key]) {
+					res.moved = true
+					break
+				}
+			}
+		}
+		pre = post
 	}
 	return
 }
@@ -819,7 +892,20 @@ func signature(k kase, obs string) string {
 	if len(labels) == 0 {
 		labels = []string{"empty-block"}
 	}
-	return "C06:" + strings.ReplaceAll(obs, ",", "+") + ":" + strings.Join(labels, "+")
+	return "C06:" + primaryObs(obs) + ":" + strings.Join(labels, "+")
+}
+
+// primaryObs picks the most telling observation of a set for the signature, so that one defect
+// does not get a signature per combination of symptoms.
+func primaryObs(set string) string {
+	for _, o := range []string{"sum-increase", "sum-decrease", "slot-outside-universe", "slot-overflow", "balance-mismatch"} {
+		for _, x := range strings.Split(set, ",") {
+			if x == o {
+				return o
+			}
+		}
+	}
+	return set
 }
 
 func report(c *fw.Ctx, k kase, r result) {
@@ -855,6 +941,7 @@ type enumerator struct {
 	idx  int64
 	stop bool
 	nont int64
+	done int64
 }
 
 func (e *enumerator) do(k kase) {
@@ -865,7 +952,8 @@ func (e *enumerator) do(k kase) {
 	if !e.c.Mine(e.idx) {
 		return
 	}
-	if e.idx%64 == 0 && e.c.Expired() {
+	e.done++
+	if e.done%32 == 0 && e.c.Expired() {
 		e.c.Cap("time budget reached before the enumeration finished")
 		e.stop = true
 		return
@@ -875,6 +963,8 @@ func (e *enumerator) do(k kase) {
 	if r.panicked != "" {
 		e.c.Outcome("panic:" + r.panicked)
 		e.c.Count("panics_in_executor", 1)
+		js, _ := json.Marshal(k)
+		e.c.Note("panic_example", r.panicked+" case "+string(js))
 		return
 	}
 	for _, o := range r.outcomes {
@@ -923,11 +1013,26 @@ func contractSpendable(sbal, gas string) *big.Int {
 }
 
 func programs(thorough bool) []string {
-	ps := []string{"", "stop", "revert", "invalid", "loop", "sdself", "sdother"}
-	for _, t := range []string{"B", "A", "CP", "CS", "CO", "CR", "self", "P2"} {
+	ps := []string{"", "stop", "revert", "invalid", "loop", "sdself", "sdother", "sdcaller", "sdnew"}
+	for _, t := range []string{"B", "A", "CP", "CS", "CO", "CR", "CC", "self", "P2", "F", "N"} {
 		for _, v := range []string{"cv", "all", "over", "one"} {
 			for _, e := range []string{"stop", "revert", "invalid", "loop"} {
 				ps = append(ps, "call:"+t+":"+v+":"+e)
+			}
+		}
+	}
+	for _, t := range []string{"CP", "CS", "CO"} {
+		for _, e := range []string{"stop", "revert"} {
+			for _, v := range []string{"cv", "over"} {
+				ps = append(ps, "callcode:"+t+":"+v+":"+e)
+			}
+			ps = append(ps, "delegate:"+t+":"+e)
+		}
+	}
+	for _, t := range []string{"B", "CS", "CO", "CR", "CC"} {
+		for _, v := range []string{"one", "all"} {
+			for _, e := range []string{"stop", "revert"} {
+				ps = append(ps, "twice:"+t+":"+v+":"+e)
 			}
 		}
 	}
@@ -935,6 +1040,13 @@ func programs(thorough bool) []string {
 		for _, v := range []string{"cv", "all", "over"} {
 			for _, e := range []string{"stop", "revert"} {
 				ps = append(ps, "create:"+i+":"+v+":"+e)
+			}
+		}
+	}
+	for _, i := range []string{"plain", "revert", "sdself", "sdother"} {
+		for _, v := range []string{"cv", "over"} {
+			for _, e := range []string{"stop", "revert"} {
+				ps = append(ps, "create2:"+i+":"+v+":"+e)
 			}
 		}
 	}
@@ -1003,7 +1115,7 @@ func enumerate(e *enumerator) {
 		}
 	}
 	// direct calls to the helper contracts and to plain accounts
-	for _, tgt := range []string{"B", "A", "CP", "CS", "CO", "CR", "P2", "F"} {
+	for _, tgt := range []string{"B", "A", "CP", "CS", "CO", "CR", "CC", "P2", "F", "N"} {
 		for _, sb := range []string{e18, e27} {
 			for _, cb := range balAlphabet {
 				for _, gas := range []string{"", "1000", "700000"} {
@@ -1015,7 +1127,7 @@ func enumerate(e *enumerator) {
 		}
 	}
 	// ---- K: contract creation
-	for _, init := range []string{"plain", "revert", "invalid", "loop", "sdself", "sdother", "callB", "big", "big2"} {
+	for _, init := range initLabels {
 		for _, gas := range []string{"", "1000", "1700000"} {
 			for _, sb := range []string{"3", "31000000000000000", e18, e27} {
 				for _, xb := range []string{"", e18} {
